@@ -122,7 +122,10 @@ def rule_pair(ctx) -> RuleResult:
     res.inst("Workspace.close: the final save of the root subtree happens before File.close()", nontrivial=True, ok=ok)
     if not ok:
         res.find("Workspace", "close", "final save after (or without) File.close()", cl.where, "the last save runs on a closed handle or not at all")
-    starts_w = [m for n in g.nodes if n.kind == "test" and "geoh5.mode in" in unparse(n.ast) for m, l in n.succ if l == "true"]
+    # the writable-mode test, written inline or through a local bound to it
+    mode_names = {a.targets[0].id for a in ast.walk(cl.node) if isinstance(a, ast.Assign) and isinstance(a.targets[0], ast.Name) and "geoh5.mode in" in unparse(a.value)}
+    starts_w = [m for n in g.nodes if n.kind == "test" and ("geoh5.mode in" in unparse(n.ast) or (isinstance(n.ast, ast.Name) and n.ast.id in mode_names))
+                for m, l in n.succ if l == "true"]
     if not starts_w:
         raise AnalysisError("Workspace.close: writable-mode test not found")
     is_save = lambda n: has_call(n, lambda c: isinstance(c.func, ast.Attribute) and c.func.attr == "_io_call" and c.args and unparse(c.args[0]) == "H5Writer.save_entity")  # noqa: E731
